@@ -25,6 +25,8 @@ def run(ctx):
             c.driver = ['parblock', 'parblock', 'parfile'][i % 3]; c.workers = rng.choice([1, 2, 3, 8, 16])
             c.reflink = rng.choice(['auto', 'never']); c.prior = rng.choice(['absent', 'longer'])
             c.extra = ['--fsync'] if i % 6 != 5 else []
+            nometa = rng.choice([(False, False), (False, False), (True, True), (True, False), (False, True)])      # nothing to preserve does not mean nothing to flush
+            c.extra += (['--no-perms'] if nometa[0] else []) + (['--no-timestamps'] if nometa[1] else [])
             mode = rng.choice(['pct', 'delay', 'pct'])
             c.plan = [f'sched {ctx.seed * 1000 + i} {mode} {rng.randint(1, 4)}']
             if rng.random() < 0.3:
@@ -42,6 +44,14 @@ def run(ctx):
             pairs = br.setup_case(root, c)
             for src, _, _ in pairs:
                 os.setxattr(src, 'user.c18', b'v')
+            linked = set()
+            if c.prior == 'absent' and rng.random() < 0.3:
+                # the destination NAME of some files already exists as a symbolic link to a regular file (an older layout of the
+                # destination): the data goes into that file, which must be flushed like any other destination
+                os.makedirs(root + '/D/.store', exist_ok=True)
+                for _, dst, _ in pairs[:2]:
+                    nm = os.path.basename(dst)
+                    open(f'{root}/D/.store/{nm}', 'wb').write(b'old' * 1000); os.symlink(f'.store/{nm}', dst); linked.add(dst)
             r = scen.run_xcp(root, br.argv_of(c), plan=c.plan, timeout=90)
             fs = '--fsync' in c.extra
             ctx.count(f'driver.{c.driver}'); ctx.count(f'workers.{c.workers}'); ctx.count(f'sched.{mode}'); ctx.count('fsync.on' if fs else 'fsync.off'); ctx.count(f'exit.{r.cls}')
@@ -54,7 +64,7 @@ def run(ctx):
             exit_ev = [e for e in r.trace if e['sys'] == 'exit_group']
             reqs, meta = [], []
             for src, dst, data in pairs:
-                proj = fileproj.project(r.trace, dst)
+                proj = fileproj.project(r.trace, os.path.realpath(dst) if dst in linked else dst)
                 length = scen.data_bytes(data)[0]
                 syncs = [e for t, e in proj if t == 'fin:fsync']
                 writes = [e for t, e in proj if t in ('data',) or t.startswith('trunc') or t.startswith('clone')]
@@ -77,7 +87,9 @@ def run(ctx):
                         ctx.violation(f'case-{i}-{os.path.basename(dst)}.json', dict(case=c.__dict__, file=os.path.basename(dst), calls=[(t, e['n'], e.get('x'), e['tid']) for t, e in proj], oracle=bad),
                                       f'C18: {os.path.basename(dst)}: {bad} ({c.driver}, workers {c.workers}, plan {c.plan})')
                         continue
-                reqs.append(f"monitor {fileproj.cfg_tokens(reflink=c.reflink, fsync=fs)} | {length} {' '.join(t for t, _ in proj)}"); meta.append((dst, proj))
+                if dst in linked:
+                    continue          # (written through an existing link: the creation calls differ from the model's per-file program; oracle only)
+                reqs.append(f"monitor {fileproj.cfg_tokens(reflink=c.reflink, fsync=fs, no_perms=nometa[0], no_timestamps=nometa[1])} | {length} {' '.join(t for t, _ in proj)}"); meta.append((dst, proj))
             if reqs:
                 for (dst, proj), m, rq in zip(meta, core.ask(core.MODEL, reqs), reqs):
                     ctx.cov['traces_validated_against_impl'] += 1
@@ -86,7 +98,7 @@ def run(ctx):
                         ctx.violation(f'case-{i}-monitor.json', dict(case=c.__dict__, request=rq, model=m, correspondence='per-file call order vs Xcp.monitorFile',
                                                                      theorems=['Xcp.Pool.writes_before_finalise']),
                                       f'trace monitor rejects the calls on {os.path.basename(dst)}', no_input=True)
-            br.verify_case(ctx, root, c, pairs, r, f'case-{i}')
+            br.verify_case(ctx, root, c, [(s_, os.path.realpath(d_) if d_ in linked else d_, dd) for s_, d_, dd in pairs], r, f'case-{i}')
     ctx.cov['rule'] = ('trees of 1-7 files incl. multi-block and sparse ones x driver x workers {1,2,3,8,16} x block sizes x schedule perturbation (seeded random delays or '
                        'priority holds with 1-4 change points, optionally every copy_file_range stalled); --no-progress in a fifth; the fsync of one file refused in some. distinct = distinct (case, schedule seed); '
                        'non-trivial = --fsync on and at least one multi-block file')
